@@ -170,6 +170,16 @@ func (f *wrappedFuncObject) export(*objectExportCtx) interface{} {
 	return f.wrapped.Interface()
 }
 
+// _addProtoBeforeNewKey materialises the lazy 'prototype' slot before a NEW string key is created, so that the
+// property order is the creation order of the specification (length, name, prototype, then later additions).
+func (f *funcObject) _addProtoBeforeNewKey(n unistring.String) {
+	if _, exists := f.values["prototype"]; !exists {
+		if _, exists := f.values[n]; !exists {
+			f.addPrototype()
+		}
+	}
+}
+
 func (f *funcObject) _addProto(n unistring.String) Value {
 	if n == "prototype" {
 		if _, exists := f.values[n]; !exists {
@@ -192,7 +202,7 @@ func (f *funcObject) getOwnPropStr(name unistring.String) Value {
 }
 
 func (f *funcObject) setOwnStr(name unistring.String, val Value, throw bool) bool {
-	f._addProto(name)
+	f._addProtoBeforeNewKey(name)
 	return f.baseObject.setOwnStr(name, val, throw)
 }
 
@@ -201,7 +211,7 @@ func (f *funcObject) setForeignStr(name unistring.String, val, receiver Value, t
 }
 
 func (f *funcObject) defineOwnPropertyStr(name unistring.String, descr PropertyDescriptor, throw bool) bool {
-	f._addProto(name)
+	f._addProtoBeforeNewKey(name)
 	return f.baseObject.defineOwnPropertyStr(name, descr, throw)
 }
 
